@@ -622,7 +622,15 @@ func (e *Engine) atLoopHeader(st *State, fr *Frame, li *loopInfo, from *ssa.Basi
 	st.ghost["$inloop/"+key] = boolVal(True)
 	ctx = e.frameCtx(st, fr, li.header)
 	for _, cl := range invs {
-		st.assume(e.evalBool(ctx, cl.Expr))
+		t := e.evalBool(ctx, cl.Expr)
+		if os.Getenv("GOVC_DEBUG_INV") != "" {
+			s := t.String()
+			if len(s) > 300 {
+				s = s[:300]
+			}
+			fmt.Fprintf(os.Stderr, "INV %s#%d dead=%v: %s\n", shortFn(fr.fn), cl.Ord, st.dead, s)
+		}
+		st.assume(t)
 	}
 	for _, cl := range c.loopClausesFn("loop-decreases", li.ord, lfn) {
 		st.ghost["$variant/"+key+"/"+fmt.Sprint(cl.Ord)] = e.eval(ctx, cl.Expr)
@@ -1208,6 +1216,9 @@ func (e *Engine) convert(st *State, v Val, T types.Type) Val {
 			nm = "s2real"
 		}
 		return Val{T, []*Term{App(fmt.Sprintf("%s%d", nm, x.S.W), RealSort, x)}}
+	case fok && tok && fb.Info()&types.IsFloat != 0 && tb.Info()&types.IsInteger != 0 && v.t().Op == OApp && v.t().Name == "s2real64" && basicSort(tb).W == 64 && isSigned(T) && len(v.t().Args) == 1 && st.ghost["$exact/"+v.t().String()].L != nil:
+		// int(float64(x)) where x was shown exactly representable (math.Min/Max model)
+		return Val{T, []*Term{v.t().Args[0]}}
 	case fok && tok && fb.Info()&types.IsFloat != 0 && tb.Info()&types.IsInteger != 0:
 		return Val{T, []*Term{App(fmt.Sprintf("real2bv%d", basicSort(tb).W), basicSort(tb), v.t())}}
 	case fok && tok && fb.Info()&types.IsFloat != 0 && tb.Info()&types.IsFloat != 0:
